@@ -230,7 +230,19 @@ type Case struct {
 	// Desc: 0 every capability has its own description, 1 all descriptions empty, 2 all equal
 	// (the description is documented as optional and not used by the package)
 	Desc int `json:"desc,omitempty"`
+	// Earlier: (with ViaSet) the version object has been evaluated before, while it reported
+	// this version
+	Earlier string `json:"evaluated_before_as,omitempty"`
 }
+
+// movingVersion is a version whose spec changes between two evaluations (the package
+// documentation suggests embedding DefaultVersion in a type of one's own).
+type movingVersion struct {
+	capability.Version
+	spec string
+}
+
+func (m *movingVersion) VersionString() string { return m.spec }
 
 func intComparer(a, b string) (int, error) {
 	x, err := strconv.Atoi(a)
@@ -336,7 +348,16 @@ func execute(c Case, capOrder []int, rangeOrder [][]int) (out outcome) {
 	target := capability.Target{VersionComparer: cmp, Capabilities: tcaps}
 	var v capability.Version
 	var err error
-	if c.ViaSet {
+	if c.ViaSet && c.Earlier != "" {
+		// the same version object is evaluated twice: first it reports another version (the
+		// server was upgraded, the connection re-established), then the one of the case
+		mv := &movingVersion{Version: capability.NewDefaultVersion(""), spec: c.Earlier}
+		_ = target.SetCapabilities(mv)
+		mv.spec = c.Version
+		rec.calls, rec.errs = 0, 0
+		v = mv
+		err = target.SetCapabilities(v)
+	} else if c.ViaSet {
 		v = capability.NewDefaultVersion(c.Version)
 		err = target.SetCapabilities(v)
 	} else {
@@ -1182,12 +1203,12 @@ func genCase(rt *rapid.T) Case {
 		fresh = func(l string) string {
 			if rapid.IntRange(0, 5).Draw(rt, l+"-far") == 0 { // anywhere in the grid
 				return gv(rapid.IntRange(0, 3).Draw(rt, l), rapid.IntRange(0, 3).Draw(rt, l), rapid.IntRange(0, 3).Draw(rt, l),
-					rapid.IntRange(0, 4).Draw(rt, l), rapid.IntRange(0, 1).Draw(rt, l))
+					rapid.IntRange(0, len(gridPre)-1).Draw(rt, l), rapid.IntRange(0, 1).Draw(rt, l))
 			}
 			k := cores[rapid.IntRange(0, nc-1).Draw(rt, l+"-core")]
-			pre := rapid.IntRange(0, 6).Draw(rt, l+"-pre")
-			if pre > 4 {
-				pre = 0 // releases twice as likely as each pre-release
+			pre := rapid.IntRange(0, len(gridPre)+1).Draw(rt, l+"-pre")
+			if pre >= len(gridPre) {
+				pre = 0 // releases three times as likely as each pre-release
 			}
 			return gv(k[0], k[1], k[2], pre, rapid.IntRange(0, 3).Draw(rt, l+"-build")/3)
 		}
@@ -1279,6 +1300,9 @@ func genCase(rt *rapid.T) Case {
 		} else {
 			c.Version = junk[k]
 		}
+	}
+	if c.ViaSet && rapid.Bool().Draw(rt, "evaluatedBefore") {
+		c.Earlier = pick("earlier")
 	}
 	return c
 }
